@@ -82,8 +82,10 @@ CLAIMS = {
        "exactly in the forbidden / always-saved-under-time-range cases. The planning recursion as a whole is a bounded stand-in on the "
        "real Context (small DAGs x stored subsets x policies x modifiers).",
   note="Not proved: that exactly the reachable-not-stored plugins run and each type is delivered once from one origin (bounded stand-in); "
-       "frontend filters (_we_take / find / _add_saver) and the processors' loader-vs-plugin wiring are not yet under contract. Context "
-       "state is opaque; recursion is handled by induction (same contract).",
+       "_add_saver / _get_partial_loader_for and the processors' loader-vs-plugin wiring are not under contract. Context state is opaque; "
+       "recursion is handled by induction (same contract). Also proved: Context._find_options (what 'fuzzy' means) and "
+       "StorageFrontend._we_take / _support_superruns / find (only accepted data types, superruns only if provided, no write location "
+       "from a readonly frontend).",
   technique="contract-based deductive verification (dominance obligations via ghost flags in symbolic execution of the real nested function) + bounded stand-in",
   design_ref="DESIGN.md section 6, C11"),
  "C05": dict(
@@ -109,8 +111,9 @@ CLAIMS = {
        "before sleeping, and every section that can switch the gate on notifies the fetch condition; lock discipline and the shape of "
        "divide_outputs are structural (AST) obligations.",
   note="Not decided: the quantitative clause (pipeline comes to rest after a number of further source chunks independent of the run "
-       "length) - whole-pipeline and schedule dependent; ThreadedMailboxProcessor wiring (lazy only without pools, savers do not "
-       "drive) is not yet under contract; divide_outputs only structurally.",
+       "length) - whole-pipeline and schedule dependent; divide_outputs only structurally. ThreadedMailboxProcessor.__init__ wiring "
+       "IS under contract: lazy exactly without worker pools and when allowed, divide_outputs gets the same flag, savers of computed "
+       "data drive only in eager mode, each mailbox's capacity is the plugin's max_messages if declared else the processor-wide value.",
   technique="contract-based deductive verification (monitor rule, dominance obligations via ghost state) + structural AST obligations",
   design_ref="DESIGN.md section 6, C13"),
  "C06": dict(
@@ -149,6 +152,22 @@ CLAIMS = {
        "(an OSError at creation of the storage parent directory is treated as 'frontend cannot save') is reported as KNOWN-FINDING.",
   technique="contract-based deductive verification of exceptional postconditions + bounded fault enumeration",
   design_ref="DESIGN.md section 6 (C04) and 10"),
+ "C14": dict(
+  category="proof",
+  text="Contract-based deductive proof over the real source, for every dict of runs and every split time, of the run bookkeeping of "
+       "superrun chunks: _split_runs_in_chunk (first half = exactly the runs starting before t cut at t, second half = exactly those "
+       "reaching beyond t, zero-duration pieces dropped, empty half is None), _pop_out_empty_run_id (removes exactly the zero-duration "
+       "runs), _sorted_subruns_check (accepts exactly the run lists without overlap between neighbours), Chunk.split hands each half "
+       "the split of the subruns at the time the rows were split at (this obligation failed on the pinned tree: defect F21, fixed), and "
+       "DataDirectory.write_run_metadata serialises the document without re-ordering it (failed on the pinned tree: defect F6, fixed). "
+       "End to end - a superrun's rows are its subruns' rows in order of run start, every chunk records exactly the subruns it holds "
+       "with spans tiling each subrun, stored superruns re-read identically, a redefined superrun is not served stale - is a bounded "
+       "stand-in on the real Context.",
+  note="Not proved: the merge direction (_merge_runs_in_chunk / _mergable_check), the sorting in the subruns / superrun setters, "
+       "define_run, the superrun branch of check_cache, the superrun storage key (bounded stand-in only). Dicts are modelled as finite "
+       "maps with a key sequence; run ids opaque; times mathematical integers.",
+  technique="contract-based deductive verification (dict-as-finite-map model, quantified loop invariants over keys, ghost index map) + bounded stand-in on the real Context",
+  design_ref="DESIGN.md section 6 (C14) and 10"),
 }
 
 NA_REASON = "check not built yet (see DESIGN.md section 6 for the plan)"
